@@ -489,7 +489,11 @@ def pytest_sessionfinish(session, exitstatus):
                     diff = file.diff()
                     if diff:
                         header()
-                        name = file.filename.relative_to(Path.cwd())
+                        try:
+                            name = file.filename.relative_to(Path.cwd())
+                        except ValueError:
+                            # the file is not inside of the current directory
+                            name = file.filename
                         console().print(
                             Panel(
                                 Syntax(diff, "diff", theme="ansi_light"),
